@@ -119,3 +119,35 @@ Example rounds_example :
   let t := MkG [0; 1; 2; 3; 4] [] [] [(0, 1); (1, 2); (2, 3); (3, 4)] [] in
   vextb t = true /\ rounds_ext_b 4 t = true /\ D (orient_all 4 t) = [(3, 4); (2, 3); (1, 2); (0, 1)].
 Proof. vm_compute. auto. Qed.
+
+(* the hypothesis [vext (temp_cpdag g)] of p2m_component_ok follows from the first round (or is trivial without o-o edges) *)
+Lemma vext_of_orient t u v : has_u t u v = true -> vext (orient t u v) -> vext t.
+Proof.
+  intros Hu [d [(H1 & H2 & H3 & H4 & H5 & H6) Hv]]. exists d. split; [|exact Hv].
+  unfold consistent_ext. split; [exact H1|]. split; [exact H2|]. split; [exact H3|]. split; [|split].
+  - intros a b. rewrite H4. apply orient_padj. exact Hu.
+  - intros e He. apply H5. simpl. right. exact He.
+  - intros a c b. rewrite Hv. split; [discriminate|]. intros X. exfalso.
+    assert (Y : vstructb (orient t u v) a c b = true).
+    { unfold vstructb in *. rewrite orient_padj by exact Hu. rewrite !andb_true_iff in *.
+      rewrite !has_d_orient_true. tauto. }
+    apply H6 in Y. rewrite Hv in Y. discriminate.
+Qed.
+
+Lemma vext_temp g : rounds_extendable (length (U (temp_cpdag g))) (temp_cpdag g) -> vext (temp_cpdag g).
+Proof.
+  generalize (temp_simple g). generalize (temp_cpdag g). intros t Hs Hr.
+  destruct (U t) as [|[u v] r] eqn:E.
+  - exists t. split.
+    + unfold consistent_ext. split; [exact E|]. split.
+      * intros x P. assert (N : forall a b, has_d t a b = false).
+        { intros a b. destruct (has_d t a b) eqn:X; [|reflexivity]. exfalso. clear P.
+          (* a directed edge in a graph without undirected edges that is all-undirected initially: use the hypothesis *)
+          exact (rounds_no_d t E a b X). }
+        inversion P as [a b H|a b c H _]; rewrite N in H; discriminate H.
+      * split; [split; apply incl_refl|]. split; [reflexivity|]. split; [apply incl_refl|tauto].
+    + intros a c b. unfold vstructb. destruct (has_d t a c) eqn:X; [|reflexivity].
+      exfalso. exact (rounds_no_d t E a c X).
+  - simpl in Hr. rewrite E in Hr. destruct Hr as [Hx _].
+    apply (vext_of_orient _ u v (head_has_u _ u v r E) Hx).
+Qed.
